@@ -39,7 +39,7 @@ Definition eval10 (c : case10) : verdict :=
     && (Nat.eqb (length (c_ds c)) 2 || Nat.eqb (length (c_ds c)) 3)
     && Nat.eqb (length (c_ws c)) (glen (c_ds c))
     && forallb (fun w => 0 <=? w) (c_ws c)
-    && (sumZ (c_ws c) <? 2 ^ 53)
+    && (sumZ (c_ws c) <? 2 ^ 46)      (* range of theorem C10_thresholds; beyond: correspondence only *)
     && Nat.leb 1 (c_T c) in
   let prop :=
     if in_contract then
